@@ -2,6 +2,7 @@ CONSTANT FIXED = TRUE
 CONSTANT FIXED2 = TRUE
 CONSTANT FIXED3 = TRUE
 CONSTANT FIXED4 = TRUE
+CONSTANT FIXED5 = TRUE
 INIT Init
 NEXT Next
 INVARIANT Refines
